@@ -36,6 +36,7 @@ def via_builder(prog, seed=None, native=None):
         pass
 
     last_stmt = {}
+    pobjs = {}  # inside a macro whose parameters are handed over as Parameter objects: name -> object
     # one circuit uses either numpy numbers or the no_duplicate flag: the builder compares expressions with ==, which a
     # numpy scalar next to a nested expression turns into an array
     use_numpy = seed is not None and rng.random() < 0.5
@@ -73,6 +74,18 @@ def via_builder(prog, seed=None, native=None):
         """Argument of a gate statement.  `params` = names bound by the enclosing macro (kept as
         names); `must` = the enclosing statement is built eagerly, out of the circuit's context, so
         every other name has to be handed over as an object."""
+        if isinstance(a, tuple) and a[0] == "array_item" and pobjs and (a[1] in pobjs or a[2] in pobjs):
+            # parameters handled as objects ("it can be used within the body of a macro exactly as if it were a register")
+            reg, idx = a[1], a[2]
+            base = pobjs[reg] if reg in pobjs else (objs[reg] if reg in objs else None)
+            i = pobjs[idx] if idx in pobjs else (objs[idx] if (isinstance(idx, str) and idx in objs) else idx)
+            if base is not None and not isinstance(i, str):
+                return base[i]
+            if must and reg not in params:
+                raise Unresolvable(reg)
+            return a
+        if isinstance(a, str) and a in pobjs:
+            return pobjs[a]
         if isinstance(a, tuple) and a[0] == "array_item":
             reg, idx = a[1], a[2]
             if reg in params:
@@ -109,6 +122,8 @@ def via_builder(prog, seed=None, native=None):
         return num(a)
 
     def count_arg(c, params, must):
+        if isinstance(c, str) and c in pobjs:
+            return pobjs[c]
         if isinstance(c, str) and c not in params:
             if c in objs and (must or rng.random() < 0.7):
                 return objs[c]
@@ -204,20 +219,31 @@ def via_builder(prog, seed=None, native=None):
         elif k == "macro":
             name, params, body = s[1], list(s[2:-1]), s[-1]
             e = eager()
+            as_objects = seed is not None and rng.random() < 0.3
             for attempt in (e, False):
                 inner = ParallelBlockBuilder() if body[0] == "parallel_block" else SequentialBlockBuilder()
                 in_macro[0] = True
+                pobjs.clear()
+                if as_objects:
+                    from jaqalpaq.core import Parameter
+
+                    pobjs.update({n: Parameter(n, None) for n in params})
                 try:
                     for x in body[1:]:
                         emit(inner, x, set(params), attempt)
                 except Unresolvable:
                     in_macro[0] = False
+                    pobjs.clear()
                     if not attempt:
                         raise
                     continue
                 in_macro[0] = False
                 choices.append("macro-eager" if attempt else "macro-unevaluated")
-                b.macro(name, params, inner, unevaluated=not attempt)
+                if as_objects:
+                    choices.append("parameter-objects")
+                plist = [pobjs[n] for n in params] if as_objects else params
+                pobjs.clear()
+                b.macro(name, plist, inner, unevaluated=not attempt)
                 break
         else:
             emit(b, s, set(), False)
